@@ -2,7 +2,7 @@
 from facts import AnalysisBroken
 from model import (dstr, strip, fact_holds, mentions_field, mentions_call, mentions_var,
                    mentions_enum, const_value, walk)
-from props.scan_common import check_active_edges
+from props.scan_common import check_active_edges, check_midbuild_targets_scheduled
 from rules import (guarded, calls_to, field_writes, who_may_write, who_may_call, atom_cmp,
                    is_enum, is_var, is_field, has_field, anything, must_pass, basename)
 import cf
@@ -507,7 +507,8 @@ def run(ctx):
     for e in mk:
         guarded(ctx, 'C06.L1', sj, e, lambda a: mentions_field(a, 'BuildConfig::disable_jobserver_client'), False,
                 'MAKEFLAGS is consulted only when the client is not disabled', construct='jobserver-client:created-although-disabled')
-    ctx.floor('C06.L1', 9)
+    check_midbuild_targets_scheduled(ctx, 'C06.L1', prog)
+    ctx.floor('C06.L1', 10)
 
     # ---- CF1: a slot cannot be copied or forged -------------------------------------------------
     R('C06.CF1', 'CF', 'Jobserver::Slot is move-only and cannot be constructed from an integer '
